@@ -834,6 +834,8 @@ class Emitter:
             name = f[1]
             if name == 'Exception':
                 return ('VB_EXC_BLF', Type('Exception'))
+            if name in ('UINT64_C', 'UINT32_C', 'INT64_C', 'INT32_C', 'UINT16_C', 'UINT8_C') and len(args) == 1:
+                return ('%s(%s)' % (name, self.ex(args[0], cx)[0]), Type({'UINT64_C': 'uint64_t', 'UINT32_C': 'uint32_t', 'INT64_C': 'int64_t', 'INT32_C': 'int32_t', 'UINT16_C': 'uint16_t', 'UINT8_C': 'uint8_t'}[name]))
             if name in ('compressBound', 'uncompress', 'compress2', 'compress'):
                 a = [self.ex(x, cx)[0] for x in args]
                 rty = Type('uLong') if name == 'compressBound' else Type('int')
@@ -907,6 +909,9 @@ class Emitter:
         if kind == 'array':
             if mname == 'size' and not a: return ('((size_t)%d)' % oty.args[1], Type('size_t'))
             if mname == 'data' and not a: return ('%s.e' % ot, Type(oty.args[0].name, ptr=1))
+            if mname == 'fill' and len(a) == 1:
+                if a[0].strip('()') in ('0', '0u', '0U', "'\\0'"): return ('memset(&%s, 0, sizeof(%s))' % (ot, ot), None)
+                return ('VB_ARRAY_FILL(%s, %d, %s)' % (ot, oty.args[1], a[0]), None)
         if kind == 'list':
             it = Type('std::list', oty.args, suffix='const_iterator')
             if mname == 'empty' and not a: return ('VB_LIST_EMPTY(%s)' % ot, Type('bool'))
